@@ -164,6 +164,7 @@ void CommonLoop::resetStat()
 
 void CommonLoop::cleanup()
 {
+    std::lock_guard<std::recursive_mutex> g(lock_);
     cleanupDeferredTasks();
 }
 
